@@ -239,3 +239,766 @@ Fixpoint mg (mb : bool) (pa : pars) (a : content) {struct a} : content -> bool :
       end
   end.
 Definition mergeable (mb : bool) (a b : content) : bool := mg mb nopar a b.
+
+(* ================================================================ mergemany *)
+Definition zeros (n : Z) : list Z := map (fun _ => 0) (iota n).
+Definition consts (v n : Z) : list Z := map (fun _ => v) (iota n).
+(* awkward_IndexedArray_fill: negative stays "missing" (-1), others are shifted by [base] *)
+Definition shift_ix (base : Z) (ix : list Z) : list Z := map (fun i => if i <? 0 then -1 else i + base) ix.
+
+(* Content::merging_strategy: head = others up to (not including) the first [stop] element *)
+Fixpoint split_head (stop : content -> bool) (others : list content) : list content * list content :=
+  match others with
+  | [] => ([], [])
+  | x :: xs => if stop x then ([], others) else let (h, t) := split_head stop xs in (x :: h, t)
+  end.
+
+(* index + content of an indexed / option node (ByteMasked, BitMasked, Unmasked go through
+   toIndexedOptionArray64); the flag says "is an option type" *)
+Definition ix_parts (b : content) : res (bool * list Z * content) :=
+  match b with
+  | Indexed _ ix c => Ok (false, ix, c)
+  | IndexedOption _ _ _ | ByteMasked _ _ _ | BitMasked _ _ _ _ _ | Unmasked _ =>
+      do oi <- option_index b; Ok (true, fst oi, snd oi)
+  | _ => Err EValue
+  end.
+
+(* carry(index, allow_lazy = true): only RecordArray is lazy (wraps itself in an IndexedArray64) *)
+Definition lazy_carry (c : content) (ix : list Z) : res content :=
+  match body c with
+  | Record _ _ _ => Ok (Indexed I64 ix c)
+  | _ => carry c ix
+  end.
+
+(* getitem_range_nowrap(0, n) per class (used by RecordArray::mergemany to trim its fields) *)
+Fixpoint trim (n : Z) (c : content) {struct c} : res content :=
+  match c with
+  | Numpy dt sh data => match sh with [] => Err EValue | _ :: dims => Ok (Numpy dt (n :: dims) data) end
+  | Empty => Ok Empty
+  | ListOffset w o c' => do o' <- slice o 0 (n + 1); Ok (ListOffset w o' c')
+  | ListA w s e c' => do s' <- slice s 0 n; do e' <- slice e 0 n; Ok (ListA w s' e' c')
+  | Regular c' size zl => do c'' <- trim (n * size) c'; Ok (Regular c'' size n)
+  | Indexed w ix c' => do ix' <- slice ix 0 n; Ok (Indexed w ix' c')
+  | IndexedOption w ix c' => do ix' <- slice ix 0 n; Ok (IndexedOption w ix' c')
+  | ByteMasked m vw c' => do m' <- slice m 0 n; do c'' <- trim n c'; Ok (ByteMasked m' vw c'')
+  | BitMasked m vw lsb len c' =>
+      do bm <- bytemask_of_bits m lsb len;
+      (* toByteMaskedArray keeps the raw bit (no flip) and valid_when *)
+      do m' <- slice bm 0 n; do c'' <- trim n c'; Ok (ByteMasked m' vw c'')
+  | Unmasked c' => do c'' <- trim n c'; Ok (Unmasked c'')
+  | Union w t ix cs => do t' <- slice t 0 n; do ix' <- slice ix 0 n; Ok (Union w t' ix' cs)
+  | Record cs ks len =>
+      match cs with
+      | [] => Ok (Record [] ks n)
+      | _ =>
+          if n =? len then Ok c else
+          do cs' <- (fix all (l : list content) : res (list content) :=
+                       match l with
+                       | [] => Ok []
+                       | x :: xs => do y <- trim n x; do ys <- all xs; Ok (y :: ys)
+                       end) cs;
+          Ok (Record cs' ks n)
+      end
+  | Par a r c' => do c'' <- trim n c'; Ok (Par a r c'')
+  end.
+
+Section MergeMany.
+  (* the recursive call [mergemany] on a non-empty list self :: others (one fuel unit less) *)
+  Variable rec : list content -> res content.
+
+  (* X::reverse_merge(other): [t] is the first element of the tail, [other] the merged head *)
+  Definition reverse_merge (t other : content) : res content :=
+    let tl_ := clen other in
+    match body t with
+    | Union _ tags index contents =>
+        do ix <- slice index 0 (zlen tags);
+        if 127 <? zlen contents + 1 then Err EValue else
+        Ok (mkpar (merge_pars (params t) (params other))
+              (Union I64 (zeros tl_ ++ map (fun g => g + 1) tags) (iota tl_ ++ ix) (other :: contents)))
+    | Indexed _ _ _ | IndexedOption _ _ _ | ByteMasked _ _ _ | BitMasked _ _ _ _ _ | Unmasked _ =>
+        do p <- ix_parts (body t);
+        let '(isopt, ix, c) := p in
+        do content <- rec [other; c];
+        let index := iota tl_ ++ shift_ix tl_ ix in
+        Ok (mkpar (merge_pars (params t) (params other))
+              (if isopt : bool then IndexedOption I64 index content else Indexed I64 index content))
+    | _ => Err EValue
+    end.
+
+  Definition finish (next : content) (tail : list content) : res content :=
+    match tail with
+    | [] => Ok next
+    | t :: rest =>
+        do r <- reverse_merge t next;
+        match rest with [] => Ok r | _ => rec (r :: rest) end
+    end.
+
+  Definition stop_basic (x : content) : bool := is_ixopt x || is_union x.
+
+  (* ---- NumpyArray::mergemany ---- *)
+  Definition np_part (x : content) : res (list (pars * dtype * list Z * list datum)) :=
+    match body x with
+    | Numpy dt sh data => Ok [(params x, dt, sh, data)]
+    | Empty => Ok []
+    | _ => Err EValue
+    end.
+
+  Definition mm_numpy (a : content) (dt : dtype) (sh : list Z) (others : list content) : res content :=
+    match sh with
+    | [] => Err EValue                                      (* "cannot merge a scalar" *)
+    | _ :: dims =>
+        let (head, tail) := split_head stop_basic others in
+        do parts <- mapM np_part (a :: head);
+        let arrs := concat parts in
+        let ps := fold_left (fun acc (x : pars * dtype * list Z * list datum) =>
+                               let '(p, _, _, _) := x in merge_pars acc p) arrs (params a) in
+        if is_chars_par (params a) then
+          (* strings: bytes copied as they are, result is a 1-d uint8 array *)
+          do datas <- mapM (fun x : pars * dtype * list Z * list datum =>
+                              let '(_, _, sh', d) := x in slice d 0 (hd 0 sh')) arrs;
+          let data := concat datas in
+          finish (mkpar ps (Numpy DUInt8 [zlen data] data)) tail
+        else
+          let ndt := fold_left (fun acc (x : pars * dtype * list Z * list datum) =>
+                                  let '(_, d, _, _) := x in promote acc d) arrs dt in
+          do datas <- mapM (fun x : pars * dtype * list Z * list datum =>
+                              let '(_, d, sh', dat) := x in
+                              if negb (Nat.eqb (length sh) (length sh')) then Err EValue else
+                              if negb (list_eqb Z.eqb dims (tl sh')) then Err EValue else
+                              if negb (fill_ok d ndt) then Err EValue else
+                              do dd <- slice dat 0 (prodZ sh');
+                              Ok (map (fill_datum d) dd)) arrs;
+          let total := sumZ (map (fun x : pars * dtype * list Z * list datum =>
+                                    let '(_, _, sh', _) := x in hd 0 sh') arrs) in
+          finish (mkpar ps (Numpy ndt (total :: dims) (concat datas))) tail
+    end.
+
+  (* ---- ListArray / ListOffsetArray / RegularArray :: mergemany ---- *)
+  (* starts, stops, content of a list node as ListArray_fill sees it *)
+  Definition list_parts (x : content) : res (list (pars * list Z * list Z * content)) :=
+    match body x with
+    | ListOffset _ o c => match o with [] => Err EValue | _ => Ok [(params x, removelast o, tl o, c)] end
+    | ListA _ s e c => do e' <- slice e 0 (zlen s); Ok [(params x, s, e', c)]
+    | Regular c size zl =>
+        if size <? 0 then Err EValue else
+        let n := (if size =? 0 then zl else clen c / size) in
+        Ok [(params x, map (fun i => i * size) (iota n), map (fun i => (i + 1) * size) (iota n), c)]
+    | Empty => Ok []
+    | _ => Err EValue
+    end.
+
+  Fixpoint fill_lists (base : Z) (l : list (pars * list Z * list Z * content)) : list Z * list Z :=
+    match l with
+    | [] => ([], [])
+    | (_, s, e, c) :: rest =>
+        let (ss, es) := fill_lists (base + clen c) rest in
+        (map (fun x => x + base) s ++ ss, map (fun x => x + base) e ++ es)
+    end.
+
+  (* RegularArray self with size 1 goes through broadcast_tooffsets64's carry (lazy) of its content *)
+  Definition self_list (a : content) : res content :=
+    match body a with
+    | Regular c size zl =>
+        if size =? 1 then
+          do c' <- lazy_carry c (iota (clen c)); Ok (mkpar (params a) (Regular c' size zl))
+        else Ok a
+    | _ => Ok a
+    end.
+
+  Definition mm_list (a : content) (others : list content) : res content :=
+    let (head, tail) := split_head stop_basic others in
+    do a' <- self_list a;
+    do parts <- mapM list_parts (a' :: head);
+    let ls := concat parts in
+    let ps := fold_left (fun acc (x : pars * list Z * list Z * content) =>
+                           let '(p, _, _, _) := x in merge_pars acc p) ls (params a) in
+    do nextcontent <- rec (map (fun x : pars * list Z * list Z * content => let '(_, _, _, c) := x in c) ls);
+    let (ss, es) := fill_lists 0 ls in
+    finish (mkpar ps (ListA I64 ss es nextcontent)) tail.
+
+  (* ---- IndexedArray / IndexedOptionArray / masked :: mergemany ---- *)
+  (* per head element: (is indexed-option?, index part, content pushed, content length used as base) *)
+  Definition ix_part (x : content) : res (list (bool * (Z -> list Z) * content)) :=
+    match body x with
+    | Indexed _ _ _ | IndexedOption _ _ _ | ByteMasked _ _ _ | BitMasked _ _ _ _ _ | Unmasked _ =>
+        do p <- ix_parts (body x);
+        let '(isopt, ix, c) := p in Ok [(isopt, fun base => shift_ix base ix, c)]
+    | Empty => Ok []
+    | _ => Ok [(false, fun base => map (fun i => i + base) (iota (clen x)), x)]
+    end.
+  Fixpoint fill_index (base : Z) (l : list (bool * (Z -> list Z) * content)) : list Z :=
+    match l with
+    | [] => []
+    | (_, f, c) :: rest => f base ++ fill_index (base + clen c) rest
+    end.
+
+  Definition mm_indexed (a : content) (others : list content) : res content :=
+    let (head, tail) := split_head is_union others in
+    do parts <- mapM ix_part (a :: head);
+    let ls := concat parts in
+    let ps := fold_left (fun acc x => merge_pars acc (params x)) (a :: head) (params a) in
+    let isopt := existsb (fun x : bool * (Z -> list Z) * content => let '(o, _, _) := x in o) ls in
+    do nextcontent <- rec (map (fun x : bool * (Z -> list Z) * content => let '(_, _, c) := x in c) ls);
+    let index := fill_index 0 ls in
+    finish (mkpar ps (if isopt then IndexedOption I64 index nextcontent else Indexed I64 index nextcontent)) tail.
+
+  (* ---- RecordArray::mergemany ---- *)
+  (* column [i] (key [k] when named) of one head element, trimmed to that record's length *)
+  Definition rec_column (tuple : bool) (nf : nat) (myks : list name) (i : nat) (k : name) (x : content)
+    : res (list content) :=
+    match body x with
+    | Record cs ks len =>
+        match tuple, ks with
+        | true, None =>
+            if negb (Nat.eqb (length cs) nf) then Err EValue else
+            match nth_error cs i with Some f => do t <- trim len f; Ok [t] | None => Err EValue end
+        | false, Some ks' =>
+            if negb (same_keys myks ks') then Err EValue else
+            match find_field k ks' cs with Some f => do t <- trim len f; Ok [t] | None => Err EValue end
+        | _, _ => Err EValue
+        end
+    | Empty => Ok []
+    | _ => Err EValue
+    end.
+
+  Definition mm_record (a : content) (cs : list content) (ks : option (list name)) (n : Z)
+             (others : list content) : res content :=
+    let (head, tail) := split_head stop_basic others in
+    let tuple := match ks with None => true | Some _ => false end in
+    let myks := match ks with Some k => k | None => [] end in
+    (* every head element must be a compatible record (checked even when there are no fields) *)
+    do _ <- mapM (fun x => match body x with
+                           | Record cs' ks' _ =>
+                               match tuple, ks' with
+                               | true, None => if Nat.eqb (length cs') (length cs) then Ok tt else Err EValue
+                               | false, Some k' => if same_keys myks k' then Ok tt else Err EValue
+                               | _, _ => Err EValue
+                               end
+                           | Empty => Ok tt
+                           | _ => Err EValue
+                           end) head;
+    do merged <- (fix cols (i : nat) (l : list content) (kl : list name) {struct l} : res (list content) :=
+                    match l with
+                    | [] => Ok []
+                    | f :: fs =>
+                        let k := hd [] kl in
+                        do t0 <- trim n f;
+                        do rest <- mapM (rec_column tuple (length cs) myks i k) head;
+                        do m <- rec (t0 :: concat rest);
+                        do ms <- cols (S i) fs (tl kl);
+                        Ok (m :: ms)
+                    end) O cs myks;
+    let minlength :=
+      match merged with
+      | [] => n + sumZ (map clen head)
+      | m :: ms => fold_left (fun acc x => Z.min acc (clen x)) ms (clen m)
+      end in
+    let ps := if tuple then fold_left (fun acc x => merge_pars acc (params x)) head (params a) else params a in
+    finish (mkpar ps (Record merged ks minlength)) tail.
+
+  (* ---- UnionArray::mergemany ---- *)
+  Fixpoint fill_union (ncont : Z) (l : list content) : res (list Z * list Z * list content) :=
+    match l with
+    | [] => Ok ([], [], [])
+    | x :: rest =>
+        match body x with
+        | Union _ tags index contents =>
+            do ix <- slice index 0 (zlen tags);
+            do r <- fill_union (ncont + zlen contents) rest;
+            let '(ts, is_, cs) := r in
+            Ok (map (fun g => g + ncont) tags ++ ts, ix ++ is_, contents ++ cs)
+        | Empty => fill_union ncont rest
+        | _ =>
+            do r <- fill_union (ncont + 1) rest;
+            let '(ts, is_, cs) := r in
+            Ok (consts ncont (clen x) ++ ts, iota (clen x) ++ is_, x :: cs)
+        end
+    end.
+
+  Definition mm_union (a : content) (others : list content) : res content :=
+    let ps := fold_left (fun acc x => merge_pars acc (params x)) (a :: others) (params a) in
+    do r <- fill_union 0 (a :: others);
+    let '(ts, is_, cs) := r in
+    if 127 <? zlen cs then Err EValue else
+    Ok (mkpar ps (Union I64 ts is_ cs)).
+
+  Definition mm_step (cs : list content) : res content :=
+    match cs with
+    | [] => Err EValue
+    | [a] => match body a with Numpy _ [] _ => Err EValue | _ => Ok a end
+    | a :: others =>
+        match body a with
+        | Par _ _ _ => Err EValue
+        | Empty => rec others
+        | Numpy dt sh _ => mm_numpy a dt sh others
+        | ListOffset _ _ _ | ListA _ _ _ _ | Regular _ _ _ => mm_list a others
+        | Indexed _ _ _ | IndexedOption _ _ _ | ByteMasked _ _ _ | BitMasked _ _ _ _ _ | Unmasked _ =>
+            mm_indexed a others
+        | Record fs ks n => mm_record a fs ks n others
+        | Union _ _ _ _ => mm_union a others
+        end
+    end.
+End MergeMany.
+
+Fixpoint mm (fuel : nat) (cs : list content) {struct fuel} : res content :=
+  match fuel with
+  | O => Err EFuel
+  | S f => mm_step (mm f) cs
+  end.
+
+(* a sufficient amount of fuel: every recursive call either descends one node level or consumes a
+   list element *)
+Fixpoint csize (c : content) : nat :=
+  match c with
+  | Numpy _ _ _ | Empty => 1
+  | ListOffset _ _ c' | ListA _ _ _ c' | Regular c' _ _ | Indexed _ _ c' | IndexedOption _ _ c'
+  | ByteMasked _ _ c' | BitMasked _ _ _ _ c' | Unmasked c' | Par _ _ c' => S (csize c')
+  | Union _ _ _ cs | Record cs _ _ =>
+      S ((fix all (l : list content) : nat := match l with [] => O | x :: xs => (csize x + all xs)%nat end) cs)
+  end.
+Definition mm_fuel (cs : list content) : nat :=
+  (4 * (fold_right (fun c acc => csize c + acc) O cs) + 4 * length cs + 8)%nat.
+
+Definition mergemany (cs : list content) : res content := mm (mm_fuel cs) cs.
+Definition merge (a b : content) : res content := mergemany [a; b].
+
+(* Content::merge_as_union *)
+Definition merge_as_union (a b : content) : content :=
+  Union I64 (zeros (clen a) ++ consts 1 (clen b)) (iota (clen a) ++ iota (clen b)) [a; b].
+
+(* ================================================================ simplify_optiontype *)
+(* awkward_IndexedArray_simplify *)
+Definition simplify_ix (outer inner : list Z) : res (list Z) :=
+  mapM (fun j => if j <? 0 then Ok (-1) else if zlen inner <=? j then Err EValue else get inner j) outer.
+
+Definition simplify_option (c : content) : res content :=
+  let pa := params c in
+  match body c with
+  | Indexed _ _ ci | IndexedOption _ _ ci | ByteMasked _ _ ci | BitMasked _ _ _ _ ci =>
+      if is_ixopt ci then
+        do po <- ix_parts (body c);
+        let '(oopt, outer, _) := po in
+        do pi <- ix_parts (body ci);
+        let '(iopt, inner, cc) := pi in
+        do r <- simplify_ix outer inner;
+        Ok (mkpar pa (if (oopt || iopt)%bool then IndexedOption I64 r cc else Indexed I64 r cc))
+      else Ok c
+  | Unmasked ci => if is_ixopt ci then Ok ci else Ok c
+  | _ => Err EValue
+  end.
+
+(* ================================================================ simplify_uniontype *)
+Definition st := list (option (Z * Z)).        (* (tag, index) per position; None = not written yet *)
+
+(* awkward_UnionArray_simplify_one *)
+Definition simp_one (s : st) (otags oindex : list Z) (towhich fromwhich base : Z) : st :=
+  map (fun x : (Z * Z) * option (Z * Z) =>
+         let '((t, i), old) := x in if t =? fromwhich then Some (towhich, i + base) else old)
+      (zip (zip otags oindex) s).
+(* awkward_UnionArray_simplify *)
+Definition simp_in (s : st) (otags oindex itags iindex : list Z) (towhich innerwhich outerwhich base : Z) : res st :=
+  mapM (fun x : (Z * Z) * option (Z * Z) =>
+          let '((t, j), old) := x in
+          if t =? outerwhich then
+            do it <- get itags j;
+            if it =? innerwhich then do ii <- get iindex j; Ok (Some (towhich, ii + base)) else Ok old
+          else Ok old)
+       (zip (zip otags oindex) s).
+
+Fixpoint find_merge (mb : bool) (k : Z) (contents : list content) (x : content) : option Z :=
+  match contents with
+  | [] => None
+  | c :: cs => if mergeable mb c x then Some k else find_merge mb (k + 1) cs x
+  end.
+Fixpoint set_nth {A} (n : nat) (v : A) (l : list A) : list A :=
+  match l, n with
+  | [], _ => []
+  | _ :: xs, O => v :: xs
+  | x :: xs, S n' => x :: set_nth n' v xs
+  end.
+
+(* where does alternative [x] go: (towhich, base, new contents) *)
+Definition place (merge_ mb : bool) (contents : list content) (x : content) : res (Z * Z * list content) :=
+  match (if merge_ then find_merge mb 0 contents x else None) with
+  | Some k =>
+      do ck <- get contents k;
+      do m <- merge ck x;
+      Ok (k, clen ck, set_nth (Z.to_nat k) m contents)
+  | None => Ok (zlen contents, 0, contents ++ [x])
+  end.
+
+Fixpoint su_loop (merge_ mb : bool) (otags oindex : list Z) (i : Z) (l : list content)
+         (contents : list content) (s : st) {struct l} : res (list content * st) :=
+  match l with
+  | [] => Ok (contents, s)
+  | x :: xs =>
+      match body x with
+      | Union _ itags iindex ics =>
+          do r <- (fix inner (j : Z) (il : list content) (contents : list content) (s : st) {struct il}
+                   : res (list content * st) :=
+                     match il with
+                     | [] => Ok (contents, s)
+                     | y :: ys =>
+                         do p <- place merge_ mb contents y;
+                         let '(k, base, contents') := p in
+                         do s' <- simp_in s otags oindex itags iindex k j i base;
+                         inner (j + 1) ys contents' s'
+                     end) 0 ics contents s;
+          su_loop merge_ mb otags oindex (i + 1) xs (fst r) (snd r)
+      | _ =>
+          do p <- place merge_ mb contents x;
+          let '(k, base, contents') := p in
+          su_loop merge_ mb otags oindex (i + 1) xs contents' (simp_one s otags oindex k i base)
+      end
+  end.
+
+Definition simplify_union (merge_ mb : bool) (c : content) : res content :=
+  match body c with
+  | Union _ tags index contents =>
+      if zlen index <? zlen tags then Err EValue else
+      do r <- su_loop merge_ mb tags index 0 contents [] (map (fun _ => None) tags);
+      let (cs, s) := r in
+      if 127 <? zlen cs then Err EValue else
+      do ti <- mapM (fun o : option (Z * Z) => match o with Some p => Ok p | None => Err EOob end) s;
+      match cs with
+      | [] => Err EValue
+      | [only] => lazy_carry only (map snd ti)
+      | _ => Ok (mkpar (params c) (Union I64 (map fst ti) (map snd ti) cs))
+      end
+  | _ => Err EValue
+  end.
+
+(* ================================================================ ak.concatenate, axis = 0 *)
+Fixpoint concat_loop (mb : bool) (c0 : content) (batch : list content) (l : list content) {struct l}
+  : res (list content) :=
+  match l with
+  | [] => Ok batch
+  | x :: xs =>
+      if mergeable mb (last batch c0) x then concat_loop mb c0 (batch ++ [x]) xs
+      else do collapsed <- mergemany batch; concat_loop mb c0 [merge_as_union collapsed x] xs
+  end.
+Definition concat_model (merge_ mb : bool) (cs : list content) : res content :=
+  match cs with
+  | [] => Err EValue
+  | c0 :: rest =>
+      do batch <- concat_loop mb c0 [c0] rest;
+      do out <- mergemany batch;
+      if is_union out then simplify_union merge_ mb out else Ok out
+  end.
+
+(* ================================================================ numbers_to_type (ak.values_astype) *)
+Definition is_float (d : dtype) : bool := match d with DFloat32 | DFloat64 => true | _ => false end.
+Definition wrap_int (dst : dtype) (z : Z) : Z :=
+  let w := bits_of dst in
+  let m := z mod 2 ^ w in
+  if is_signed dst && (2 ^ (w - 1) <=? m) then m - 2 ^ w else m.
+Definition in_range (dst : dtype) (z : Z) : bool :=
+  let w := bits_of dst in
+  if is_signed dst then (- 2 ^ (w - 1) <=? z) && (z <? 2 ^ (w - 1)) else (0 <=? z) && (z <? 2 ^ w).
+(* the C conversion (TO)x done by awkward_NumpyArray_fill / _fill_tobool (= NumPy astype on the values the
+   model carries).  float -> integer outside the target range (or NaN/inf) is undefined in C: EValue here,
+   and never generated. *)
+Definition cast_datum (src dst : dtype) (d : datum) : res datum :=
+  let d := fill_datum src d in
+  match dst with
+  | DBool => Ok (match d with DZ z => DZ (if z =? 0 then 0 else 1) | _ => DZ 1 end)
+  | DFloat32 | DFloat64 => Ok d
+  | _ =>
+      match d with
+      | DZ z => if is_float src then (if in_range dst z then Ok (DZ z) else Err EValue) else Ok (DZ (wrap_int dst z))
+      | _ => Err EValue
+      end
+  end.
+
+Fixpoint astype_p (dst : dtype) (p : option akind) (c : content) {struct c} : res content :=
+  match c with
+  | Numpy dt sh data =>
+      match p with
+      | Some AChar | Some AByte => Ok c
+      | _ =>
+          match sh with
+          | [] => Err EValue
+          | _ => do dd <- slice data 0 (prodZ sh); do r <- mapM (cast_datum dt dst) dd; Ok (Numpy dst sh r)
+          end
+      end
+  | Empty => Ok Empty
+  | ListOffset w o c' => rmap (ListOffset w o) (astype_p dst None c')
+  | ListA w s e c' => rmap (ListA w s e) (astype_p dst None c')
+  | Regular c' size zl => rmap (fun x => Regular x size zl) (astype_p dst None c')
+  | Indexed w ix c' => rmap (Indexed w ix) (astype_p dst None c')
+  | IndexedOption w ix c' => rmap (IndexedOption w ix) (astype_p dst None c')
+  | ByteMasked m vw c' => rmap (ByteMasked m vw) (astype_p dst None c')
+  | BitMasked m vw lsb n c' =>
+      do bm <- bytemask_of_bits m lsb n; rmap (ByteMasked bm vw) (astype_p dst None c')
+  | Unmasked c' => rmap Unmasked (astype_p dst None c')
+  | Union w t ix cs =>
+      rmap (Union w t ix)
+        ((fix all (l : list content) : res (list content) :=
+            match l with
+            | [] => Ok []
+            | x :: xs => do y <- astype_p dst None x; do ys <- all xs; Ok (y :: ys)
+            end) cs)
+  | Record cs ks n =>
+      rmap (fun cs' => Record cs' ks n)
+        ((fix all (l : list content) : res (list content) :=
+            match l with
+            | [] => Ok []
+            | x :: xs => do y <- astype_p dst None x; do ys <- all xs; Ok (y :: ys)
+            end) cs)
+  | Par a r c' => rmap (Par a r) (astype_p dst a c')
+  end.
+Definition astype_model (dst : dtype) (c : content) : res content := astype_p dst None c.
+
+(* ================================================================ specifications on (type, values) *)
+Definition bnum (b : bool) : value := VNum (DZ (if b then 1 else 0)).
+Fixpoint assoc_name (k : name) (fs : list (name * value)) : option value :=
+  match fs with
+  | [] => None
+  | (k', v) :: rest => if nm_eqb k k' then Some v else assoc_name k rest
+  end.
+
+(* A value seen at the result type [to].  The only change allowed is the documented mergebool cast
+   (True/False become 1/0 where the result type is a number), and record fields are listed in the
+   result's field order.  [strict] forbids even that. *)
+Fixpoint cast_v (strict : bool) (to : ty) (v : value) {struct to} : res value :=
+  match to with
+  | TNum dt =>
+      match v with
+      | VBool b => if dt_eqb dt DBool then Ok v else if strict then Err EValue else Ok (bnum b)
+      | VNum _ => if dt_eqb dt DBool then Err EValue else Ok v
+      | _ => Err EValue
+      end
+  | TUnk => Err EValue
+  | TList _ (Some isstr) _ =>
+      match v with VStr i _ => if Bool.eqb i isstr then Ok v else Err EValue | _ => Err EValue end
+  | TList _ None t' =>
+      match v with VList l => rmap VList (mapM (cast_v strict t') l) | _ => Err EValue end
+  | TOpt t' => match v with VNone => Ok VNone | _ => cast_v strict t' v end
+  | TRec ks ts =>
+      match ks, v with
+      | None, VTup xs =>
+          rmap VTup
+            ((fix go (ts : list ty) (xs : list value) : res (list value) :=
+                match ts, xs with
+                | [], [] => Ok []
+                | t1 :: ts', x :: xs' => do y <- cast_v strict t1 x; do ys <- go ts' xs'; Ok (y :: ys)
+                | _, _ => Err EValue
+                end) ts xs)
+      | Some k, VRec fs =>
+          if negb (Nat.eqb (length fs) (length ts)) then Err EValue else
+          rmap VRec
+            ((fix go (ts : list ty) (kl : list name) : res (list (name * value)) :=
+                match ts, kl with
+                | [], [] => Ok []
+                | t1 :: ts', k1 :: kl' =>
+                    match assoc_name k1 fs with
+                    | Some x => do y <- cast_v strict t1 x; do ys <- go ts' kl'; Ok ((k1, y) :: ys)
+                    | None => Err EValue
+                    end
+                | _, _ => Err EValue
+                end) ts k)
+      | _, _ => Err EValue
+      end
+  | TUnion ts =>
+      (fix first (l : list ty) : res value :=
+         match l with
+         | [] => Err EValue
+         | t1 :: rest => match cast_v strict t1 v with Ok r => Ok r | Err _ => first rest end
+         end) ts
+  end.
+Definition cast_val (to : ty) (v : value) : res value :=
+  match cast_v true to v with Ok r => Ok r | Err _ => cast_v false to v end.
+
+(* concatenation: the values of the first array followed by those of the others, each seen at the
+   result type [tres] *)
+Definition concat_spec (tres : ty) (vss : list (list value)) : res (list value) :=
+  mapM (cast_val tres) (concat vss).
+(* simplifying a union (merge + mergebool may fold booleans into numbers) / an option *)
+Definition simplify_union_spec (tres : ty) (vs : list value) : res (list value) := mapM (cast_val tres) vs.
+Definition simplify_option_spec (vs : list value) : res (list value) := Ok vs.
+
+Fixpoint astype_v (dst : dtype) (t : ty) (v : value) {struct t} : res value :=
+  match t with
+  | TNum src =>
+      match v with
+      | VNum d => rmap (leaf dst) (cast_datum src dst d)
+      | VBool b => rmap (leaf dst) (cast_datum DBool dst (DZ (if b then 1 else 0)))
+      | _ => Err EValue
+      end
+  | TUnk => Ok v
+  | TList _ (Some _) _ => Ok v
+  | TList _ None t' => match v with VList l => rmap VList (mapM (astype_v dst t') l) | _ => Err EValue end
+  | TOpt t' => match v with VNone => Ok VNone | _ => astype_v dst t' v end
+  | TRec _ ts =>
+      match v with
+      | VRec fs =>
+          rmap VRec
+            ((fix go (ts : list ty) (fs : list (name * value)) : res (list (name * value)) :=
+                match ts, fs with
+                | [], [] => Ok []
+                | t1 :: ts', (k, x) :: fs' => do y <- astype_v dst t1 x; do ys <- go ts' fs'; Ok ((k, y) :: ys)
+                | _, _ => Err EValue
+                end) ts fs)
+      | VTup xs =>
+          rmap VTup
+            ((fix go (ts : list ty) (xs : list value) : res (list value) :=
+                match ts, xs with
+                | [], [] => Ok []
+                | t1 :: ts', x :: xs' => do y <- astype_v dst t1 x; do ys <- go ts' xs'; Ok (y :: ys)
+                | _, _ => Err EValue
+                end) ts xs)
+      | _ => Err EValue
+      end
+  | TUnion _ => Err EValue
+  end.
+Definition astype_spec (dst : dtype) (t : ty) (vs : list value) : res (list value) := mapM (astype_v dst t) vs.
+
+(* ================================================================ type-level specification *)
+(* "Numeric element types are promoted as NumPy promotes them, identical list / record / option types
+   merge into one type, only genuinely different types become a union."  Defined on [ty] for inputs
+   without unions; list sizes are not part of the claim (this tree merges RegularArrays into ListArray64),
+   so types are compared after [erase_sz]. *)
+Definition unopt1 (t : ty) : ty := match t with TOpt t' => t' | _ => t end.
+Definition is_opt (t : ty) : bool := match t with TOpt _ => true | _ => false end.
+Fixpoint assoc_ty (k : name) (ks : list name) (ts : list ty) : option ty :=
+  match ks, ts with
+  | k' :: ks', t :: ts' => if nm_eqb k k' then Some t else assoc_ty k ks' ts'
+  | _, _ => None
+  end.
+
+Fixpoint ty_mergeable (mb : bool) (a b : ty) {struct a} : bool :=
+  match a with
+  | TUnk => true
+  | TUnion _ => true
+  | TOpt a' => ty_mergeable mb a' (unopt1 b)
+  | TNum x =>
+      match unopt1 b with
+      | TUnk | TUnion _ => true
+      | TNum y => dt_eqb x y || mb || negb (dt_eqb x DBool || dt_eqb y DBool)
+      | _ => false
+      end
+  | TList _ s a' =>
+      match unopt1 b with
+      | TUnk | TUnion _ => true
+      | TList _ s' b' => opt_eqb Bool.eqb s s' && ty_mergeable mb a' b'
+      | _ => false
+      end
+  | TRec ks ts =>
+      match unopt1 b with
+      | TUnk | TUnion _ => true
+      | TRec ks' ts' =>
+          match ks, ks' with
+          | None, None =>
+              (fix go (l l' : list ty) : bool :=
+                 match l, l' with
+                 | [], [] => true
+                 | x :: xs, y :: ys => ty_mergeable mb x y && go xs ys
+                 | _, _ => false
+                 end) ts ts'
+          | Some k, Some k' =>
+              same_keys k k' &&
+              (fix go (l : list ty) (kl : list name) : bool :=
+                 match l, kl with
+                 | [], _ => true
+                 | x :: xs, kx :: kr =>
+                     match assoc_ty kx k' ts' with Some y => ty_mergeable mb x y && go xs kr | None => false end
+                 | _ :: _, [] => false
+                 end) ts k
+          | _, _ => false
+          end
+      | _ => false
+      end
+  end.
+
+(* the merged type of two mergeable union-free types *)
+Fixpoint merge_ty (a b : ty) {struct a} : ty :=
+  let wrap (t : ty) := if is_opt b then TOpt t else t in
+  match a with
+  | TUnk => b
+  | TUnion _ => a
+  | TOpt a' => TOpt (merge_ty a' (unopt1 b))
+  | TNum x => match unopt1 b with TNum y => wrap (TNum (numpy_promote x y)) | _ => wrap a end
+  | TList _ s a' =>
+      match unopt1 b with
+      | TList _ _ b' => wrap (TList None s (merge_ty a' b'))
+      | _ => wrap (TList None s a')
+      end
+  | TRec ks ts =>
+      match unopt1 b with
+      | TRec ks' ts' =>
+          wrap (TRec ks
+                  match ks, ks' with
+                  | Some k, Some k' =>
+                      (fix go (l : list ty) (kl : list name) : list ty :=
+                         match l, kl with
+                         | x :: xs, kx :: kr =>
+                             match assoc_ty kx k' ts' with Some y => merge_ty x y | None => x end :: go xs kr
+                         | _, _ => l
+                         end) ts k
+                  | _, _ =>
+                      (fix go (l l' : list ty) : list ty :=
+                         match l, l' with
+                         | x :: xs, y :: ys => merge_ty x y :: go xs ys
+                         | _, _ => l
+                         end) ts ts'
+                  end)
+      | _ => wrap a
+      end
+  end.
+
+Fixpoint erase_sz (t : ty) : ty :=
+  match t with
+  | TNum _ | TUnk => t
+  | TList _ s t' => TList None s (erase_sz t')
+  | TOpt t' => TOpt (erase_sz t')
+  | TRec ks ts => TRec ks (map erase_sz ts)
+  | TUnion ts => TUnion (map erase_sz ts)
+  end.
+
+(* alternatives accumulated left to right: merge into the first mergeable one, else append *)
+Fixpoint add_alt (mb : bool) (alts : list ty) (t : ty) : list ty :=
+  match alts with
+  | [] => [t]
+  | a :: rest => if ty_mergeable mb a t then merge_ty a t :: rest else a :: add_alt mb rest t
+  end.
+Definition concat_ty (mb : bool) (ts : list ty) : ty :=
+  match fold_left (add_alt mb) (map erase_sz ts) [] with
+  | [t] => t
+  | alts => TUnion alts
+  end.
+
+Fixpoint ty_eqb (a b : ty) {struct a} : bool :=
+  match a, b with
+  | TNum x, TNum y => dt_eqb x y
+  | TUnk, TUnk => true
+  | TList s st x, TList s' st' y => opt_eqb Z.eqb s s' && opt_eqb Bool.eqb st st' && ty_eqb x y
+  | TOpt x, TOpt y => ty_eqb x y
+  | TRec ks ts, TRec ks' ts' =>
+      opt_eqb (list_eqb nm_eqb) ks ks' &&
+      (fix go (l l' : list ty) : bool :=
+         match l, l' with
+         | [], [] => true
+         | x :: xs, y :: ys => ty_eqb x y && go xs ys
+         | _, _ => false
+         end) ts ts'
+  | TUnion ts, TUnion ts' =>
+      (fix go (l l' : list ty) : bool :=
+         match l, l' with
+         | [], [] => true
+         | x :: xs, y :: ys => ty_eqb x y && go xs ys
+         | _, _ => false
+         end) ts ts'
+  | _, _ => false
+  end.
+
+(* astype: every numeric leaf type becomes [dst]; strings stay *)
+Fixpoint astype_ty (dst : dtype) (t : ty) : ty :=
+  match t with
+  | TNum _ => TNum dst
+  | TUnk => TUnk
+  | TList s (Some b) t' => t
+  | TList s None t' => TList s None (astype_ty dst t')
+  | TOpt t' => TOpt (astype_ty dst t')
+  | TRec ks ts => TRec ks (map (astype_ty dst) ts)
+  | TUnion ts => TUnion (map (astype_ty dst) ts)
+  end.
